@@ -512,6 +512,10 @@ impl FieldElement2625x4 {
         // c_odd  < 2^25 + 2^11.25 < 25.0001  < 2^{25+b}
         //
         // where b = 0.0002.
+        #[cfg(curve25519_dalek_verif)]
+        if let Some(t) = crate::verif::tape::avx2_choice("avx2.reduce", 0.0002) {
+            return FieldElement2625x4(t);
+        }
         FieldElement2625x4(v)
     }
 
@@ -579,6 +583,10 @@ impl FieldElement2625x4 {
         // b = 0      for other z[i].
         //
         // So the packed result is bounded with b = 0.007.
+        #[cfg(curve25519_dalek_verif)]
+        if let Some(t) = crate::verif::tape::avx2_choice("avx2.reduce64", 0.007) {
+            return FieldElement2625x4(t);
+        }
         FieldElement2625x4([
             repack_pair(z[0].into(), z[1].into()),
             repack_pair(z[2].into(), z[3].into()),
